@@ -3,9 +3,12 @@
 #include <jsoncons/json.hpp>
 #include <jsoncons_ext/bson/bson.hpp>
 #include "replay_util.hpp"
+#include <cstring>
+#include <functional>
 using namespace jsoncons;
 typedef std::vector<uint8_t> bytes;
 struct elem { uint8_t type; int64_t ival; };
+static std::vector<std::string> g_strs;
 static bool rd_doc(const bytes& b, size_t& p, size_t end, bool is_array, std::vector<elem>& leaves, std::string& why)
 {
     if (p + 5 > end) { why = "document shorter than 5 bytes"; return false; }
@@ -18,10 +21,10 @@ static bool rd_doc(const bytes& b, size_t& p, size_t end, bool is_array, std::ve
         auto need = [&](size_t n) { return p + n <= dend - 1; };
         if (t == 0x10) { if (!need(4)) { why = "int32 cut"; return false; } int32_t v = (int32_t)(b[p] | b[p+1] << 8 | b[p+2] << 16 | (uint32_t)b[p+3] << 24); leaves.push_back({t, v}); p += 4; }
         else if (t == 0x12 || t == 0x09) { if (!need(8)) { why = "int64 cut"; return false; } uint64_t v = 0; for (int k = 7; k >= 0; --k) v = v << 8 | b[p+k]; leaves.push_back({t, (int64_t)v}); p += 8; }
-        else if (t == 0x01) { if (!need(8)) { why = "double cut"; return false; } leaves.push_back({t, 0}); p += 8; }
+        else if (t == 0x01) { if (!need(8)) { why = "double cut"; return false; } uint64_t v = 0; for (int k = 7; k >= 0; --k) v = v << 8 | b[p+k]; leaves.push_back({t, (int64_t)v}); p += 8; }
         else if (t == 0x08) { if (!need(1)) { why = "bool cut"; return false; } leaves.push_back({t, b[p]}); p += 1; }
-        else if (t == 0x0a) { leaves.push_back({t, 0}); }
-        else if (t == 0x02) { if (!need(4)) { why = "string cut"; return false; } int32_t n = (int32_t)(b[p] | b[p+1] << 8 | b[p+2] << 16 | (uint32_t)b[p+3] << 24); p += 4; if (n < 1 || !need((size_t)n) || b[p+n-1] != 0) { why = "bad string length"; return false; } leaves.push_back({t, n - 1}); p += (size_t)n; }
+        else if (t == 0x0a || t == 0x06) { leaves.push_back({t, 0}); }
+        else if (t == 0x02 || t == 0x0d) { if (!need(4)) { why = "string cut"; return false; } int32_t n = (int32_t)(b[p] | b[p+1] << 8 | b[p+2] << 16 | (uint32_t)b[p+3] << 24); p += 4; if (n < 1 || !need((size_t)n) || b[p+n-1] != 0) { why = "bad string length"; return false; } leaves.push_back({t, n - 1}); g_strs.push_back(std::string((const char*)&b[p], (size_t)n - 1)); p += (size_t)n; }
         else if (t == 0x03 || t == 0x04) { if (!rd_doc(b, p, dend - 1, t == 0x04, leaves, why)) return false; }
         else { why = "unexpected type byte " + std::to_string(t); return false; }
     }
@@ -39,7 +42,7 @@ int main(int argc, char** argv)
         ++total; bytes out; bool refused = false; std::string why;
         try { bson::bson_bytes_encoder enc(out); enc.begin_object(); enc.key("a"); enc.begin_array(); enc.int64_value(7); enc.begin_object(); enc.key("k"); body(enc); enc.end_object(); body(enc); enc.end_array(); enc.key("z"); enc.null_value(); enc.end_object(); enc.flush(); }
         catch (const std::exception&) { refused = true; }
-        std::vector<elem> leaves; size_t p = 0; bool ok = refused || (rd_doc(out, p, out.size(), false, leaves, why) && p == out.size());
+        std::vector<elem> leaves; size_t p = 0; g_strs.clear(); bool ok = refused || (rd_doc(out, p, out.size(), false, leaves, why) && p == out.size());
         if (ok && !judge(leaves, refused, why)) ok = false;
         if (!ok) { if (!bad) first = what + ": " + why; ++bad; }
     };
@@ -57,6 +60,28 @@ int main(int argc, char** argv)
         if (l.size() != 4) { why = "wrong number of values"; return false; }
         uint8_t want = tag == semantic_tag::none ? (v <= (uint64_t)INT32_MAX ? 0x10 : 0x12) : 0x09;
         for (int k : {1, 2}) if (l[k].type != want || (unsigned __int128)(uint64_t)l[k].ival != ms) { why = "value " + std::to_string(v) + " written as type " + std::to_string(l[k].type) + " value " + std::to_string(l[k].ival); return false; } return true; }, "uint64 " + std::to_string(v) + " tag " + std::to_string((int)tag));
-    if (bad) VX_REPRO(bad << " of " << total << " BSON encodings are malformed or carry the wrong integer, first: " << first);
-    VX_NOREPRO("all " << total << " BSON encodings are well-formed and carry the integers given");
+    // the other scalar writers: null / undefined, booleans, doubles (bit patterns), strings (plain and code; lengths around 0, 1, 127/128, 255/256, 65535/65536; invalid UTF-8 refused)
+    for (auto tag : {semantic_tag::none, semantic_tag::undefined}) run([&](bson::bson_bytes_encoder& e) { e.null_value(tag); }, [&](const std::vector<elem>& l, bool refused, std::string& why) {
+        if (refused || l.size() != 4) { why = "refused or wrong number of values"; return false; } uint8_t want = tag == semantic_tag::undefined ? 0x06 : 0x0a;
+        for (int k : {1, 2}) if (l[k].type != want) { why = "null written as type " + std::to_string(l[k].type); return false; } return true; }, "null");
+    for (bool v : {false, true}) run([&](bson::bson_bytes_encoder& e) { e.bool_value(v); }, [&](const std::vector<elem>& l, bool refused, std::string& why) {
+        if (refused || l.size() != 4) { why = "refused or wrong number of values"; return false; }
+        for (int k : {1, 2}) if (l[k].type != 0x08 || l[k].ival != (v ? 1 : 0)) { why = "bool written as type " + std::to_string(l[k].type) + " byte " + std::to_string(l[k].ival); return false; } return true; }, std::string("bool ") + (v ? "true" : "false"));
+    const uint64_t dbits[] = {0, 0x8000000000000000ull, 1, 0x3ff8000000000000ull, 0x7ff0000000000000ull, 0xfff0000000000000ull, 0x7ff8000000000000ull, 0x7ff0000000000001ull, 0xfff8000000000123ull, 0x7fefffffffffffffull, 0x3fb999999999999aull, 0x47efffffe0000000ull};
+    for (uint64_t u : dbits) run([&](bson::bson_bytes_encoder& e) { double d; std::memcpy(&d, &u, 8); e.double_value(d); }, [&](const std::vector<elem>& l, bool refused, std::string& why) {
+        if (refused || l.size() != 4) { why = "refused or wrong number of values"; return false; }
+        for (int k : {1, 2}) if (l[k].type != 0x01 || (uint64_t)l[k].ival != u) { why = "double bits written as type " + std::to_string(l[k].type) + " bits " + std::to_string((uint64_t)l[k].ival); return false; } return true; }, "double bits " + std::to_string(u));
+    for (auto tag : {semantic_tag::none, semantic_tag::code, semantic_tag::datetime}) for (size_t n : {(size_t)0, (size_t)1, (size_t)2, (size_t)127, (size_t)128, (size_t)255, (size_t)256, (size_t)65535, (size_t)65536}) for (int kind = 0; kind < 3; ++kind) {
+        std::string t(n, 'a'); for (size_t i = 0; i < n; ++i) t[i] = (char)('a' + i % 23);
+        if (kind == 1 && n >= 2) { t[n - 2] = (char)0xc3; t[n - 1] = (char)0xa9; }        // ends with a two-byte character
+        if (kind == 2) { if (n == 0) continue; t[n - 1] = (char)0xc3; }                    // truncated character: not UTF-8
+        run([&](bson::bson_bytes_encoder& e) { e.string_value(t, tag); }, [&](const std::vector<elem>& l, bool refused, std::string& why) {
+            if (kind == 2) { if (!refused) { why = "invalid UTF-8 was written"; return false; } return true; }
+            if (refused || l.size() != 4 || g_strs.size() != 2) { why = "refused or wrong number of values"; return false; }
+            uint8_t want = tag == semantic_tag::code ? 0x0d : 0x02;
+            for (int k : {1, 2}) if (l[k].type != want || (size_t)l[k].ival != n) { why = "written as type " + std::to_string(l[k].type) + " length " + std::to_string(l[k].ival); return false; }
+            if (g_strs[0] != t || g_strs[1] != t) { why = "the text differs"; return false; } return true; }, "string of " + std::to_string(n) + " bytes, kind " + std::to_string(kind));
+    }
+    if (bad) VX_REPRO(bad << " of " << total << " BSON encodings are malformed or carry the wrong value, first: " << first);
+    VX_NOREPRO("all " << total << " BSON encodings are well-formed and carry the values given");
 }
